@@ -28,8 +28,8 @@ carries that text), and the MessagePack + zstd byte formats: writing and reading
 modelled at the level of serde's data model by `Value.reser` (what `Serialize for ScalarValue`
 emits and what `JsonValue::deserialize` + `ScalarValue::from` make of it). `created_at`,
 `version`, `compression*` of the header are not modelled (never read by the code paths here).
-Not modelled: a write that fails half-way after `File::create` (leaves a truncated file),
-files appearing between the archive pass and the deletion pass (concurrency with the WAL writer).
+A data write that fails after `File::create` is the `Fault.write` outcome of the fault oracle
+(result `Err`, an undecodable file stays behind). Not modelled: files appearing between the archive pass and the deletion pass (concurrency with the WAL writer).
 -/
 namespace Snel.WalArchive
 
@@ -304,21 +304,37 @@ def squatted (nodes : List (Name × Node)) (n : Name) : Bool :=
   | some .dir | some .dangling => true
   | _ => false
 
-/-- `WalArchive::write_to_file`. `fails` is the fault oracle for everything not modelled
-structurally (EACCES, ENOSPC, …), keyed by log id, biting at `File::create`. -/
-def writeToFile (fails : Nat → Bool) (fs : ArchFs) (a : Archive) : Bool × ArchFs :=
+/-- Outcome of the I/O that is not modelled structurally, per log id: no fault; `File::create`
+fails (EACCES, EROFS, …: nothing is created); or the *data* write fails after the file has been
+created / truncated (ENOSPC, EDQUOT, EFBIG, EIO — possibly after part of the bytes): the name
+then holds an incomplete file that does not decode. -/
+inductive Fault
+  | none | create | write
+  deriving DecidableEq, Repr
+
+def Fault.bites : Fault → Bool
+  | .none => false
+  | _ => true
+
+/-- `WalArchive::write_to_file`. `fails` is the fault oracle, keyed by log id. -/
+def writeToFile (fails : Nat → Fault) (fs : ArchFs) (a : Archive) : Bool × ArchFs :=
   match fs.root with
   | .isFile | .blocked => (false, fs)
   | _ =>
     let nodes := fs.nodes
-    if fails a.header.logId || squatted nodes a.fileName then (false, { root := .dir, nodes := nodes })
+    if fails a.header.logId == .create || squatted nodes a.fileName then
+      (false, { root := .dir, nodes := nodes })
+    else if fails a.header.logId == .write then
+      -- `File::create` succeeded (an earlier file of that name is gone), `write_all` / `sync_all`
+      -- returned `Err`: an empty or truncated file stays behind
+      (false, { root := .dir, nodes := put a.fileName .junk nodes })
     else (true, { root := .dir, nodes := put a.fileName (.archive a) nodes })
 
 def findFile {L : Type} (wal : List (WalFile L)) (n : Name) : Option (WalFile L) :=
   wal.find? fun f => f.name = n
 
 /-- `WalArchiver::archive_log(log_id)`: `true` = `Ok`. -/
-def archiveLog {L : Type} (p : Parser L) (fails : Nat → Bool) (shard : Nat) (wal : List (WalFile L))
+def archiveLog {L : Type} (p : Parser L) (fails : Nat → Fault) (shard : Nat) (wal : List (WalFile L))
     (fs : ArchFs) (id : Nat) : Bool × ArchFs :=
   match findFile wal (walName id) with
   | none => (false, fs)
@@ -326,7 +342,7 @@ def archiveLog {L : Type} (p : Parser L) (fails : Nat → Bool) (shard : Nat) (w
     if f.readable then writeToFile fails fs (mkArchive p shard id f.lines) else (false, fs)
 
 /-- `archive_logs_up_to`: one result per eligible directory entry, in directory order. -/
-def archivePass {L : Type} (p : Parser L) (fails : Nat → Bool) (shard bound : Nat)
+def archivePass {L : Type} (p : Parser L) (fails : Nat → Fault) (shard bound : Nat)
     (wal : List (WalFile L)) : List (WalFile L) → ArchFs → List Bool × ArchFs
   | [], fs => ([], fs)
   | f :: rest, fs =>
@@ -342,7 +358,7 @@ def deletePass {L : Type} (bound : Nat) (wal : List (WalFile L)) : List (WalFile
   wal.filter fun f => !((eligible bound f.name).isSome && f.deletable)
 
 /-- `WalCleaner::cleanup_up_to(keep_from_log_id)` -/
-def cleanup {L : Type} (conservative : Bool) (p : Parser L) (fails : Nat → Bool) (shard bound : Nat)
+def cleanup {L : Type} (conservative : Bool) (p : Parser L) (fails : Nat → Fault) (shard bound : Nat)
     (wal : List (WalFile L)) (fs : ArchFs) : List (WalFile L) × ArchFs :=
   if conservative then
     let r := archivePass p fails shard bound wal wal fs
@@ -405,11 +421,11 @@ structure Step (L : Type) where
 def addFiles {L : Type} (wal add : List (WalFile L)) : List (WalFile L) :=
   (wal.filter fun f => !add.any fun g => g.name = f.name) ++ add
 
-def runStep {L : Type} (conservative : Bool) (p : Parser L) (fails : Nat → Bool) (shard : Nat)
+def runStep {L : Type} (conservative : Bool) (p : Parser L) (fails : Nat → Fault) (shard : Nat)
     (st : List (WalFile L) × ArchFs) (s : Step L) : List (WalFile L) × ArchFs :=
   cleanup conservative p fails shard s.bound (addFiles st.1 s.add) st.2
 
-def runSteps {L : Type} (conservative : Bool) (p : Parser L) (fails : Nat → Bool) (shard : Nat)
+def runSteps {L : Type} (conservative : Bool) (p : Parser L) (fails : Nat → Fault) (shard : Nat)
     (st : List (WalFile L) × ArchFs) (steps : List (Step L)) : List (WalFile L) × ArchFs :=
   steps.foldl (runStep conservative p fails shard) st
 
